@@ -48,8 +48,9 @@ class Sgp4(AnalyticalPropagator):
         if type(date) is timedelta:
             date = self.orbit.date + date
 
-        # Convert the date to a tuple usable by the sgp4 library
-        _date = [float(x) for x in f"{date:%Y %m %d %H %M %S.%f}".split()]
+        # Convert the date to a tuple usable by the sgp4 library, which expects UTC
+        _utc = date.change_scale("UTC")
+        _date = [float(x) for x in f"{_utc:%Y %m %d %H %M %S.%f}".split()]
         p, v = self.tle.propagate(*_date)
 
         # Convert from km to meters
